@@ -1,7 +1,7 @@
 //! Property table: how each claimed property is generated, executed and described.
 
 use crate::runner::{Prop, Tier};
-use crate::{c03};
+use crate::{c03, c06, c08, c17, c18};
 
 pub struct Meta {
     pub prop: Prop,
@@ -22,8 +22,124 @@ fn c03_gen(rng: &mut crate::rng::Rng, seed: u64, run: u64, tier: &Tier) -> crate
     c03::generate(rng, seed, run, tier.max_len)
 }
 
+fn c06_gen(rng: &mut crate::rng::Rng, seed: u64, run: u64, tier: &Tier) -> crate::trace::Trace {
+    c06::generate(rng, seed, run, tier.max_len)
+}
+
+fn c08_gen(rng: &mut crate::rng::Rng, seed: u64, run: u64, tier: &Tier) -> crate::trace::Trace {
+    c08::generate(rng, seed, run, tier.max_len)
+}
+
+fn c17_gen(rng: &mut crate::rng::Rng, seed: u64, run: u64, tier: &Tier) -> crate::trace::Trace {
+    c17::generate(rng, seed, run, tier.max_len)
+}
+
+fn c18_gen(rng: &mut crate::rng::Rng, seed: u64, run: u64, tier: &Tier) -> crate::trace::Trace {
+    c18::generate(rng, seed, run, tier.max_len)
+}
+
 pub fn lookup(id: &str) -> Option<Meta> {
     match id {
+        "C17" => Some(Meta {
+            prop: Prop { id: "C17", tag: 0xC17, generate: c17_gen, execute: c17::execute, systematic: Some(c17::systematic) },
+            level: "fault_enumeration",
+            quick_runs: 400_000,
+            thorough_runs: 3_000_000,
+            max_len: 512,
+            rule: "one evaluation = one history of coloured writes: (surface in {ansi::write_colored, WinconStream for dyn Write / dyn Write+Send / dyn Write+Send+Sync / Box<dyn Write> / &mut dyn Write / Vec<u8> / File}, data, base colour pair rotated per call over all 17x17 pairs, client write loop, offset-keyed fault script over the framed output so that any of the up to four inner writes of a call can be shortened or failed); each call's output is split existentially into <codes><accepted data><reset> and the codes are interpreted by an independent 16-colour SGR interpreter. The thorough tier adds, for one seeded workload in 64, all 17x17 colour pairs x (no fault + every fault kind at every output offset). Non-trivial = a fault fired or the history has at least two calls; distinct = distinct signatures of such histories",
+            assumptions: &[
+                "an Interrupted raised while writing the colour codes or the reset is retried by write_all and is not an error; on the data write it may surface",
+                "after an error the partial output is compared with a prefix of the fault-free output of the same real function (the success path is judged by the independent SGR interpreter, not by the code under test)",
+                "legacy Windows consoles are out of scope (never built here)",
+            ],
+            real: &[
+                "anstyle_wincon::ansi::write_colored and the WinconStream impls in anstyle-wincon/src/stream.rs for non-console writers",
+                "anstyle colour rendering (render_fg/render_bg/Reset)",
+            ],
+            stub: &["inner writer: SimWriter with offset-keyed faults (Vec and File surfaces are fault-free; File is a real temp file)"],
+            essential_probes: &["fault_on_first_inner_write", "fault_on_later_inner_write", "short_data_write_reported", "error_reached_caller", "history_delivered_everything"],
+            fault_free: false,
+        }),
+        "C18" => Some(Meta {
+            prop: Prop { id: "C18", tag: 0xC18, generate: c18_gen, execute: c18::execute, systematic: Some(c18::systematic) },
+            level: "fault_enumeration",
+            quick_runs: 300_000,
+            thorough_runs: 4_000_000,
+            max_len: 1024,
+            rule: "one evaluation = one history: (SGR-heavy grammar-generated input, seeded sequence of write / write_vectored / write_all / write! / failing write! / flush calls against the legacy-console stream compiled from /repo's wincon.rs, offset-keyed fault script for the simulated console: short counts, Ok(0), Interrupted, WouldBlock, hard errors, failing flush); after every call the (byte, fg, bg) sequence the console received is compared with the one-shot styled-run extraction of the prefix reported consumed, colours reduced by an independent 16-colour cap. The thorough tier adds every single fault of every kind at every text offset for generated inputs of <= 16 bytes. Non-trivial = a fault fired, or a call started while the parser was inside a sequence or character; distinct = distinct signatures of such histories",
+            assumptions: &[
+                "expected colouring comes from the real one-shot WinconBytes extractor (its SGR semantics are C07, not claimed) plus an independent 16-colour capping function",
+                "crate::stream is a 40-line shim (the two sealed traits wincon.rs names, re-declared open); wincon.rs and fmt.rs are the unmodified files from the working tree",
+                "after a hard error the client stops and only 'delivered is a prefix of expected' is required",
+            ],
+            real: &[
+                "crates/anstream/src/wincon.rs (WinconStream: write, write_vectored, write_all, write_fmt, flush, cap_wincon_color) compiled from the working tree",
+                "crates/anstream/src/fmt.rs (Adapter), anstream::adapter::WinconBytes, anstyle-parse Parser",
+            ],
+            stub: &["console writer: SimConsole implementing anstyle_wincon::WinconStream (records fg/bg per accepted byte)", "crate::stream::{AsLockedWrite, IsTerminal} shim in /verif/sim/wincon-port"],
+            essential_probes: &["fault_while_carried_state_nonground", "fault_after_partial_progress_in_call", "fault_on_first_console_write_of_call", "call_starts_inside_sequence_or_char", "history_delivered_everything", "history_stopped_by_hard_error"],
+            fault_free: false,
+        }),
+        "C08" => Some(Meta {
+            prop: Prop { id: "C08", tag: 0xC08, generate: c08_gen, execute: c08::execute, systematic: None },
+            level: "exploration",
+            quick_runs: 400_000,
+            thorough_runs: 8_000_000,
+            max_len: 2048,
+            rule: "one evaluation = one lock-step differential history: (construction path in {never, new(Never), always_ansi, always, new(AlwaysAnsi), new(Always)}, writer in {Box<dyn Write>, &mut dyn Write, Box<dyn Write+Send>, Vec<u8>, &mut Vec<u8>, File, &mut File}, grammar-generated input, seeded sequence of write / write_vectored / write_all / write! / failing write! / flush calls, offset-keyed fault script, optional into_inner point) applied to the AutoStream under test and to the reference (StripStream over a twin writer, or the twin writer itself) with identical fault scripts; per-call results and accepted bytes are compared after every call, the reported mode and is_terminal() before, the writer returned by into_inner after. Non-trivial = a fault fired or the history mixes at least two kinds of call; distinct = distinct signatures of such histories",
+            assumptions: &[
+                "reference for Never is the real StripStream (its own contract is C06); reference for AlwaysAnsi/Always is the inner writer driven directly",
+                "fault scripts are keyed by accepted-byte offsets, so a refactor that splits or merges inner writes sees the same faults",
+                "Always is checked as pass-through on this (non-Windows) platform; the Windows console arm is never built here",
+                "sampling, not proof",
+            ],
+            real: &[
+                "anstream::AutoStream: never/always_ansi/always/new, Write impl (all five methods), current_choice, is_terminal, into_inner",
+                "anstream::StripStream (reference), stream::{RawStream, AsLockedWrite, IsTerminal} impls for Box/&mut/Vec/File",
+                "std::fs::File on a temp file for the file writers",
+            ],
+            stub: &["inner writer: SimWriter twins with identical offset-keyed fault scripts (Vec and File writers are fault-free)"],
+            essential_probes: &["config_fault_free", "config_faulty", "into_inner_mid_history", "history_stopped_by_hard_error"],
+            fault_free: false,
+        }),
+        "C06" => Some(Meta {
+            prop: Prop {
+                id: "C06",
+                tag: 0xC06,
+                generate: c06_gen,
+                execute: c06::execute,
+                systematic: Some(c06::systematic),
+            },
+            level: "fault_enumeration",
+            quick_runs: 400_000,
+            thorough_runs: 6_000_000,
+            max_len: 2048,
+            rule: "one evaluation = one history: (stream surface, grammar-generated input, seeded sequence of write / write_vectored / write_all / write! / failing-Display write! / flush calls, offset-keyed fault script for the inner writer) executed against the real strip stream with the oracle evaluated after every client call; the thorough tier adds, for every generated input of <= 10 bytes, every single fault of {Short(1..3), Ok(0), Interrupted, WouldBlock, hard} at every accepted-byte offset and every pair of {Short(1), Interrupted, Ok(0), WouldBlock} placements. Non-trivial = at least one fault fired while the carried parser state was not ground, inside a multi-byte character, or after partial progress within the call; distinct = distinct FNV-1a signatures of (surface, input, ops, faults) among the non-trivial histories. 20 % of the seeded histories are a separate fault-free configuration with the same strict oracle",
+            assumptions: &[
+                "reference for 'the stripped form' is the real one-shot strip_bytes of the prefix reported consumed (chunk-invariance of strip_bytes is established separately by C03)",
+                "after partial delivery within one write call a later inner error may be deferred (Ok(n) is accepted, as BufWriter/LineWriter do); an inner error with no inner progress in that call must surface",
+                "after a hard error or a failed write_all/write! the client stops and only 'no wrong data' (inner is a prefix of the stripped input) is required",
+                "sampling plus bounded enumeration, not proof",
+            ],
+            real: &[
+                "anstream::StripStream / AutoStream::never / AutoStream::new(_, Never) Write impls: write, write_vectored, write_all, write_fmt, flush",
+                "anstream::fmt::Adapter, adapter::StripBytes, anstyle-parse state table, utf8parse",
+                "std write_all / write_fmt / IoSlice machinery; Box<dyn Write>, Box<dyn Write + Send>, &mut dyn Write, &mut Box<dyn Write> RawStream impls",
+            ],
+            stub: &["inner writer: SimWriter (offset-keyed fault script: short, Ok(0), Interrupted, WouldBlock, hard errors, failing flush)"],
+            essential_probes: &[
+                "fault_while_carried_state_nonground",
+                "fault_inside_multibyte_char",
+                "fault_after_partial_progress_in_call",
+                "fault_on_first_inner_write_of_call",
+                "error_after_partial_progress",
+                "error_without_progress",
+                "eintr_inside_write_fmt",
+                "history_delivered_everything",
+                "config_fault_free",
+            ],
+            fault_free: false,
+        }),
         "C03" => Some(Meta {
             prop: Prop {
                 id: "C03",
@@ -63,4 +179,4 @@ pub fn lookup(id: &str) -> Option<Meta> {
     }
 }
 
-pub const ALL: [&str; 1] = ["C03"];
+pub const ALL: [&str; 5] = ["C03", "C06", "C08", "C17", "C18"];
